@@ -45,6 +45,9 @@ class UDoc:
         return out
 
 
+PAYLOAD_TYPES_SEEN = []
+
+
 def union_models(doc):
     def cell_of(st, mp):
         while isinstance(st.deref(mp), Ptr):
@@ -80,6 +83,7 @@ def union_models(doc):
             return
         kidx = [i for i in range(len(KEYS)) if it.feasible(st, doc.ksel[pos] == i)]
         st.aux['payload_types'] = st.aux.get('payload_types', ()) + ((tuple(kidx), vname),)
+        PAYLOAD_TYPES_SEEN.append((tuple(kidx), vname))          # also kept outside the state: the path may not complete
         for s2, good in fork_bool(it, st, doc.pok[pos]):
             yield s2, (it.ok(Agg('Payload', (vname, pos))) if good else it.err(de_err('payload', vname)))
 
@@ -150,7 +154,26 @@ def run_union(rep, prog, pid):
         vis = Agg(f'{gentypes.CRATE}::{cfg}::p::test_union::Visitor_', ())
         accept = spec(doc, cfg == 'exhaustive_types')
         np_, seen = 0, {'ok': 0, 'err': 0}
-        for s2, rv in it.run(vm[0], [vis, st.deref(mp)], st, {'A': P('EvMap')}):
+        del PAYLOAD_TYPES_SEEN[:]
+
+        def payload_discipline(seen):
+            # discipline behind C05 (and C01's encodings): the payload of a *listed* variant is decoded straight from the map access with
+            # its declared type -- hence by the wrapped deserializer that rejects / ignores unknown fields -- not through a buffer
+            for kidx, vname in seen:
+                for ki in kidx:
+                    want = {1: ('i32',), 2: ('Obj',)}.get(ki)
+                    if want is not None and vname not in want and re.sub(r'\d+$', '', vname) not in want:       # Obj1: same-named type of another configuration
+                        rep.structural(f'{pid}:union-payload-buffered', f'{cfg}: the payload of the listed variant {KEYS[ki]!r} is decoded as {vname} instead of its declared type: '
+                                       'it leaves the deserializer the caller chose (unknown-field behaviour, Conjure encodings)', {'cfg': cfg, 'key': KEYS[ki], 'decoded_as': vname}, battery_union_wrapped)
+        outs = it.run(vm[0], [vis, st.deref(mp)], st, {'A': P('EvMap')})
+        while True:
+            try:
+                s2, rv = next(outs)
+            except StopIteration:
+                break
+            except Exception:
+                payload_discipline(list(PAYLOAD_TYPES_SEEN))
+                raise
             np_ += 1
             rep.states += 1
             tag = f'union:{cfg}:path{np_}'
@@ -162,14 +185,7 @@ def run_union(rep, prog, pid):
                 if m is not None:
                     report_union(rep, pid, cfg, doc, m, f'panic: {rv.msg}')
                 continue
-            # discipline behind C05 (and C01's encodings): the payload of a *listed* variant is decoded straight from the map access with
-            # its declared type -- hence by the wrapped deserializer that rejects / ignores unknown fields -- not through a buffer
-            for kidx, vname in s2.aux.get('payload_types', ()):
-                for ki in kidx:
-                    want = {1: ('i32',), 2: ('Obj',)}.get(ki)
-                    if want is not None and vname not in want and re.sub(r'\d+$', '', vname) not in want:       # Obj1: same-named type of another configuration
-                        rep.structural(f'{pid}:union-payload-buffered', f'{cfg}: the payload of the listed variant {KEYS[ki]!r} is decoded as {vname} instead of its declared type: '
-                                       'it leaves the deserializer the caller chose (unknown-field behaviour, Conjure encodings)', {'cfg': cfg, 'key': KEYS[ki], 'decoded_as': vname}, battery_union_wrapped)
+            payload_discipline(s2.aux.get('payload_types', ()))
             is_ok = it.variant_of(rv, 'Ok')
             okp = it.payload(rv, 'Ok')
             conds = [is_ok != accept]
